@@ -646,4 +646,39 @@ example : ((siteRun 9 (List.replicate 12 (SOp.direct (.resolve .fail)))).1.accep
     have : ((12 + 1 : Nat) : Rat) = 13 := by simp
     simp only [this]; grind
 
+/-! ## 10. float policy: where a float64 evaluation of `accept()` can differ from the exact one -/
+
+/-- **the numerator of the drop ratio lies on the grid of hundredths**: `100 · dropNum` is the integer
+`100·(total − 5) − (150 − failingBuckets)·accepts` (at most 40 failing buckets: the window has 40) -/
+theorem dropNum_grid (h : WinRes) (hfb : h.failingBuckets ≤ 40) :
+    dropNum h = (((100 * ((h.total : Int) - 5) - (150 - (h.failingBuckets : Int)) * (h.accepts : Int)) : Int) : Rat) / 100 := by
+  unfold dropNum
+  rw [weight_eq_of_le _ hfb]
+  push_cast
+  grind
+
+/-- **float policy, as a theorem about the decision**: the numerator is either exactly 0 or at least 1/100 away from 0,
+so ANY evaluation of it whose absolute error is below 1/100 — float64 in particular, whose error after four operations is
+below 2^-50·(total + 1.5·accepts), i.e. below 1/100 for every window with fewer than 2^40 calls — takes the same
+`dropRatio <= 0` decision as the exact one, except when the exact numerator is 0 (the documented boundary, which needs
+accepts > 0 and where the driver accepts either outcome). -/
+theorem free_decision_robust (h : WinRes) (hfb : h.failingBuckets ≤ 40) (x : Rat)
+    (hne : dropNum h ≠ 0) (hclose : x - dropNum h < 1 / 100 ∧ dropNum h - x < 1 / 100) :
+    (x ≤ 0 ↔ dropNum h ≤ 0) := by
+  rw [dropNum_grid h hfb] at hne hclose ⊢
+  generalize (100 * ((h.total : Int) - 5) - (150 - (h.failingBuckets : Int)) * (h.accepts : Int)) = k at *
+  have hk : k ≠ 0 := by
+    intro h0; subst h0; apply hne; show ((0 : Int) : Rat) / 100 = 0; grind
+  rcases Int.lt_or_gt_of_ne hk with hneg | hpos
+  · have : k ≤ -1 := by omega
+    have hc : ((k : Int) : Rat) ≤ ((-1 : Int) : Rat) := by exact_mod_cast this
+    constructor <;> intro _ <;> grind
+  · have : 1 ≤ k := by omega
+    have hc : ((1 : Int) : Rat) ≤ ((k : Int) : Rat) := by exact_mod_cast this
+    constructor <;> intro _ <;> grind
+
+/-- non-vacuity: one success and seven calls: the numerator is exactly 1/2 (50 hundredths), far from the boundary -/
+example : dropNum ⟨1, 7, 0, 0⟩ = (((50 : Int) : Int) : Rat) / 100 := by
+  rw [dropNum_grid _ (by decide)]; rfl
+
 end GoZero.C01
